@@ -12,52 +12,55 @@ import (
 	"github.com/feichai0017/NoKV/raftstore/peer"
 )
 
-func (s *Store) validateCommand(req *pb.RaftCmdRequest) (*peer.Peer, manifest.RegionMeta, *pb.RaftCmdResponse, error) {
+// validateCommand checks the request header against the local region catalog
+// and leadership. On success it also returns the raft term in which the local
+// peer was observed to be leader.
+func (s *Store) validateCommand(req *pb.RaftCmdRequest) (*peer.Peer, manifest.RegionMeta, uint64, *pb.RaftCmdResponse, error) {
 	if s == nil {
-		return nil, manifest.RegionMeta{}, nil, fmt.Errorf("raftstore: store is nil")
+		return nil, manifest.RegionMeta{}, 0, nil, fmt.Errorf("raftstore: store is nil")
 	}
 	if req == nil {
-		return nil, manifest.RegionMeta{}, nil, fmt.Errorf("raftstore: command is nil")
+		return nil, manifest.RegionMeta{}, 0, nil, fmt.Errorf("raftstore: command is nil")
 	}
 	if req.Header == nil {
 		req.Header = &pb.CmdHeader{}
 	}
 	regionID := req.Header.GetRegionId()
 	if regionID == 0 {
-		return nil, manifest.RegionMeta{}, nil, fmt.Errorf("raftstore: region id missing")
+		return nil, manifest.RegionMeta{}, 0, nil, fmt.Errorf("raftstore: region id missing")
 	}
 	meta, ok := s.RegionMetaByID(regionID)
 	if !ok {
 		resp := &pb.RaftCmdResponse{Header: req.Header, RegionError: epochNotMatchError(nil)}
-		return nil, manifest.RegionMeta{}, resp, nil
+		return nil, manifest.RegionMeta{}, 0, resp, nil
 	}
 	if err := validateRegionEpoch(req.Header.GetRegionEpoch(), meta); err != nil {
 		resp := &pb.RaftCmdResponse{Header: req.Header, RegionError: err}
-		return nil, meta, resp, nil
+		return nil, meta, 0, resp, nil
 	}
 	if err := validateRequestKeys(meta, req); err != nil {
 		resp := &pb.RaftCmdResponse{Header: req.Header, RegionError: err}
-		return nil, meta, resp, nil
+		return nil, meta, 0, resp, nil
 	}
 	peer := s.regions.peer(regionID)
 	if peer == nil {
 		resp := &pb.RaftCmdResponse{Header: req.Header, RegionError: epochNotMatchError(&meta)}
-		return nil, meta, resp, nil
+		return nil, meta, 0, resp, nil
 	}
 	status := peer.Status()
 	if status.RaftState != myraft.StateLeader {
 		resp := &pb.RaftCmdResponse{Header: req.Header, RegionError: notLeaderError(meta, status.Lead)}
-		return nil, meta, resp, nil
+		return nil, meta, 0, resp, nil
 	}
 	req.Header.PeerId = peer.ID()
-	return peer, meta, nil, nil
+	return peer, meta, status.Term, nil, nil
 }
 
 // ProposeCommand submits a raft command to the leader hosting the target
 // region. When the store is not leader or the request header is invalid the
 // returned response includes an appropriate RegionError.
 func (s *Store) ProposeCommand(req *pb.RaftCmdRequest) (*pb.RaftCmdResponse, error) {
-	peer, meta, resp, err := s.validateCommand(req)
+	peer, meta, term, resp, err := s.validateCommand(req)
 	if err != nil {
 		return nil, err
 	}
@@ -68,7 +71,7 @@ func (s *Store) ProposeCommand(req *pb.RaftCmdRequest) (*pb.RaftCmdResponse, err
 		req.Header.RequestId = s.command.nextProposalID()
 	}
 	id := req.Header.RequestId
-	prop, err := s.command.registerProposal(id)
+	prop, err := s.command.registerProposalAt(id, meta.ID, term)
 	if err != nil {
 		return nil, err
 	}
@@ -103,7 +106,7 @@ func (s *Store) ProposeCommand(req *pb.RaftCmdRequest) (*pb.RaftCmdResponse, err
 // leader. The command must only include read operations (Get/Scan). The method
 // returns a RegionError when the store is not leader for the target region.
 func (s *Store) ReadCommand(req *pb.RaftCmdRequest) (*pb.RaftCmdResponse, error) {
-	peer, meta, regionResp, err := s.validateCommand(req)
+	peer, meta, _, regionResp, err := s.validateCommand(req)
 	if err != nil {
 		return nil, err
 	}
